@@ -128,7 +128,9 @@ func (s *SpecValidator) Validate(data interface{}) (*Result, *Result) {
 		return errs, warnings // no point in continuing
 	}
 
-	errs.Merge(s.validateReferencesValid()) // error -
+	refs := s.validateReferencesValid()
+	refsResolve := refs.IsValid() // to be read before the merge, which hands refs back to the pool
+	errs.Merge(refs)              // error -
 	// There may be a point in continuing to try and determine more accurate errors
 	if !s.Options.ContinueOnErrors && errs.HasErrors() {
 		return errs, warnings // no point in continuing
@@ -148,15 +150,20 @@ func (s *SpecValidator) Validate(data interface{}) (*Result, *Result) {
 		return errs, warnings // no point in continuing
 	}
 
-	// Values provided as default MUST validate their schema
-	df := &defaultValidator{SpecValidator: s, schemaOptions: s.schemaOptions}
-	errs.Merge(df.Validate())
+	// NOTE: when continuing on errors with references that do not resolve (already reported above),
+	// default values and examples are not checked: a schema validator cannot be built on a schema
+	// with unresolvable references (NewSchemaValidator panics on such a schema).
+	if refsResolve {
+		// Values provided as default MUST validate their schema
+		df := &defaultValidator{SpecValidator: s, schemaOptions: s.schemaOptions}
+		errs.Merge(df.Validate())
 
-	// Values provided as examples MUST validate their schema
-	// Value provided as examples in a response without schema generate a warning
-	// Known limitations: examples in responses for mime type not application/json are ignored (warning)
-	ex := &exampleValidator{SpecValidator: s, schemaOptions: s.schemaOptions}
-	errs.Merge(ex.Validate())
+		// Values provided as examples MUST validate their schema
+		// Value provided as examples in a response without schema generate a warning
+		// Known limitations: examples in responses for mime type not application/json are ignored (warning)
+		ex := &exampleValidator{SpecValidator: s, schemaOptions: s.schemaOptions}
+		errs.Merge(ex.Validate())
+	}
 
 	errs.Merge(s.validateNonEmptyPathParamNames())
 
